@@ -5,7 +5,7 @@
 (* boundary n-grams; boundary part either empty (tag n-grams only) or small.  Expected tags,   *)
 (* tag count and candidate scores by RefTagRows / RefTokenCands.                              *)
 EXTENDS VpModel, Json
-CONSTANTS Ws, Layouts1, Layouts2, BaseKinds, K, CPool, TPool, TextAlpha, MaxText, Tie
+CONSTANTS Ws, Layouts1, Layouts2, BaseKinds, K, CPool, TPool, TextAlpha, MaxText, Tie, Swap
 VARIABLES w, lay1, lay2, base, ents
 
 TA == <<65>>  TB == <<66>>  TC == <<67>>  TD == <<68>>  TE == <<69>>  TF == <<70>>
@@ -62,7 +62,10 @@ Model ==
    cng |-> IF base \in {1, 3} THEN BaseC ELSE <<>>,
    tng |-> IF base \in {2, 3} THEN BaseT ELSE <<>>,
    dict |-> IF base = 3 THEN <<[ng |-> <<12354, 97>>, w |-> <<3, -9, 2>>]>> ELSE <<>>,
-   tags |-> <<TagModel(1, Tok1, lay1)>> \o (IF lay2 = 9 THEN <<>> ELSE <<TagModel(2, Tok2, lay2)>>)]
+   \* Swap: the tag models are stored in descending token order (the order must not matter)
+   tags |-> IF lay2 = 9 THEN <<TagModel(1, Tok1, lay1)>>
+            ELSE IF Swap THEN <<TagModel(2, Tok2, lay2), TagModel(1, Tok1, lay1)>>
+            ELSE <<TagModel(1, Tok1, lay1), TagModel(2, Tok2, lay2)>>]
 
 Texts == SeqsOf(TextAlpha, 1, MaxText)
 
